@@ -154,7 +154,7 @@ func RunCrash(cfg CrashCfg, t *Trace, seg int) int {
 	if err != nil {
 		panic(err)
 	}
-	p0 := d.NEvents() // crash points before the first MakeNfs returned belong to the initial format
+	p0 := d.NEvents() // the events before this point are the initial format's
 	g := &seqGen{cfg: SeqCfg{Seed: cfg.Seed, Profile: cfg.Profile, Avoid: cfg.Avoid, Unstable: cfg.Unstable, DiskSz: cfg.DiskSz},
 		r: rand.New(rand.NewSource(int64(cfg.Seed))), s: s, t: t, enumC: map[string][]int{}, ext: Extents{}, mark: true}
 	g.root = &gobj{fh: RootFh(), kind: 2, alive: true}
@@ -207,11 +207,13 @@ func RunCrash(cfg CrashCfg, t *Trace, seg int) int {
 	if stride < 1 {
 		stride = 1
 	}
-	for p := p0; p <= len(events); p++ {
+	// crash points inside the initial format (before the first MakeNfs returned) count as well: no operation has been
+	// issued, the recovered file system must be the empty one
+	for p := 0; p <= len(events); p++ {
 		if p > p0 && p < len(events) && events[p-1].Kind == vdisk.EvMark {
 			continue // a marker changes nothing on the disk; the boundary after it equals the one before
 		}
-		if (p-p0)%stride != 0 && p != len(events) {
+		if p > p0 && (p-p0)%stride != 0 && p != len(events) {
 			continue
 		}
 		win := vdisk.Window(events, p)
